@@ -58,11 +58,12 @@ type req struct {
 }
 
 var (
-	recMu    sync.Mutex
-	recCalls int
-	recLast  []val
-	recAll   [][]val
-	theCtx   context.Context
+	recMu     sync.Mutex
+	recCalls  int
+	recLast   []val
+	recAll    [][]val
+	theCtx    context.Context
+	expectCtx context.Context // the context the current Run / CtxDeps call is given
 )
 
 type ctxKey struct{}
@@ -100,7 +101,8 @@ func toVal(x interface{}) val {
 	case *CtxStruct:
 		return val{T: "ctxptr"}
 	case context.Context:
-		if v.Value(ctxKey{}) != nil {
+		// the function must receive THE context Run was called with (identity), not a derived one
+		if v == expectCtx {
 			return val{T: "ctx", V: mustJSON("given")}
 		}
 		return val{T: "ctx", V: mustJSON("other")}
@@ -210,12 +212,12 @@ type runRes struct {
 }
 
 type fRes struct {
-	Panic   bool    `json:"panic"`
-	PanicIsError bool `json:"panic_is_error"`
-	Msg     string  `json:"msg,omitempty"`
-	ID      string  `json:"id,omitempty"`
-	Name    string  `json:"name,omitempty"`
-	Run     *runRes `json:"run,omitempty"`
+	Panic        bool    `json:"panic"`
+	PanicIsError bool    `json:"panic_is_error"`
+	Msg          string  `json:"msg,omitempty"`
+	ID           string  `json:"id,omitempty"`
+	Name         string  `json:"name,omitempty"`
+	Run          *runRes `json:"run,omitempty"`
 }
 
 func doF(target interface{}, args []interface{}, ctxDone bool) (res fRes) {
@@ -255,6 +257,7 @@ func doF(target interface{}, args []interface{}, ctxDone bool) (res fRes) {
 			cancel()
 			runCtx = c
 		}
+		expectCtx = runCtx
 		err := f.Run(runCtx)
 		switch {
 		case err == nil:
@@ -297,6 +300,7 @@ func doPair(target interface{}, a, b []interface{}) (res pairRes) {
 	recMu.Unlock()
 	func() {
 		defer func() { recover() }() // pool functions with an error result return poolErr
+		expectCtx = theCtx
 		mg.CtxDeps(theCtx, fa, fb)
 	}()
 	recMu.Lock()
@@ -308,7 +312,9 @@ func doPair(target interface{}, a, b []interface{}) (res pairRes) {
 }
 
 func main() {
-	theCtx = context.WithValue(context.Background(), ctxKey{}, 1)
+	// a CANCELLABLE context (never cancelled): what targets get under mage -t / after the first target
+	theCtx, _ = context.WithCancel(context.WithValue(context.Background(), ctxKey{}, 1))
+	expectCtx = theCtx
 	in := bufio.NewReaderSize(os.Stdin, 1<<20)
 	out := bufio.NewWriter(os.Stdout)
 	defer out.Flush()
